@@ -120,7 +120,7 @@ m = {
  ],
  "checks": checks,
  "not_applicable": na,
- "notes": "Model-based verification with explicit TLA+ specifications; see DESIGN.md.",
+ "notes": "Model-based verification with explicit TLA+ specifications checked by TLC (one Apalache run for the unbounded fold identities), bound to the implementation by replay of TLC-generated states / behaviours and by TLC validation of recorded traces; see DESIGN.md (section 8 is the as-built record). Known findings and the list of fixed: entries: /verif/known_findings.json. Seeded property-breaking changes (213) and property-preserving changes (false-alarm tests): /verif/seeded, /verif/benign. Extra specification beyond the listed properties: specs/KernelCtl.tla (./check X01, not a claimed check).",
 }
 json.dump(m, open(os.path.join(V, "MANIFEST.json"), "w"), indent=1)
 print("claimed:", sorted(CHECKS), "not claimed:", [x["property_id"] for x in na])
